@@ -29,6 +29,13 @@ type Oblig struct {
 	Entry *EntryInfo
 }
 
+// Expect is a replay oracle: the result and exit heap (for entry objects) that the contract demands.
+type Expect struct {
+	HasResult bool
+	Result    Value
+	Heap      map[*Object]Value
+}
+
 // EntryInfo describes how the symbolic entry state of the function under check was built (for replay).
 type EntryInfo struct {
 	Fn     *ssa.Function
